@@ -34,6 +34,17 @@ impl<'a> ProjectionContext<'a> {
                 }
             })
             .collect();
+        // SINCE .. USING <field> is evaluated row by row like a WHERE leaf. With a WHERE clause
+        // the filter groups hold only the WHERE leaves, so the time field has to be named here
+        // or its column is not loaded and no row passes the SINCE condition.
+        if let crate::command::types::Command::Query {
+            since: Some(_),
+            time_field: Some(time_field),
+            ..
+        } = &self.plan.command
+        {
+            cols.push(time_field.clone());
+        }
         cols.sort();
         cols.dedup();
         cols
